@@ -347,10 +347,19 @@ def check_race(spec, ch, res):
 
 def run(tier, seed):
     specs = fault_specs(tier)
-    bound = 1 if tier == "quick" else 2
-    res = explore.explore_parallel(check_race, specs, bound, seed=seed, max_exec_per_subtree=None if tier == "quick" else 3000)
+    res = explore.explore_parallel(check_race, specs, 1, seed=seed)
     res.extra["fault_specs"] = len(specs)
-    res.bound_completed = bound if res.exhaustive else f"{bound} (capped)"
+    if tier == "thorough":
+        # two deviations: the fault combined with one more delayed / reordered message, on the fault kinds whose reporting path has
+        # several hops (worker -> driver -> race control) and on the completed-by shape
+        deep = [sp for sp in specs if (sp[0] in ("S3", "S1") and sp[1] in ("api-abort", "connection-error", "runner-raises", "store-raises") and sp[2] in ("mid", "last", 3))
+                or sp[1] in ("store-raises-late-teardown",)]
+        r2 = explore.explore_parallel(check_race, deep, 2, seed=seed, max_exec_per_subtree=250)
+        res.merge(r2)
+        res.extra["fault_specs_at_bound_2"] = len(deep)
+        res.bound_completed = "1 on every fault spec, 2 on fault_specs_at_bound_2" + ("" if res.exhaustive else " (capped at 250 executions per first-level subtree)")
+    else:
+        res.bound_completed = 1
     return res
 
 
